@@ -34,10 +34,14 @@ class TLCResult:
 
     def printed(self):
         """Values printed by PrintT (one per line unless they contain line breaks)."""
+        import json
         res = []
         for line in self.out.splitlines():
-            if line.startswith("@@"):
-                res.append(line[2:])
+            if line.startswith('"@@'):
+                try:
+                    res.append(json.loads(line)[2:])
+                except ValueError:
+                    raise MachineryError("unparsable PrintT line from TLC: %r" % line[:200])
         return res
 
     def coverage_zero(self):
@@ -54,6 +58,8 @@ def run_tlc(module, cfg, scratch, workers=None, env=None, simulate=None, depth=N
     metadir = os.path.join(scratch, "meta_%s_%d" % (module, int(time.time() * 1000) % 10000000))
     os.makedirs(metadir, exist_ok=True)
     java = ["java", "-XX:+UseParallelGC", "-Xmx" + heap]
+    if (workers or 99) <= 2:
+        java += ["-XX:ParallelGCThreads=2", "-XX:CICompilerCount=2"]
     if dfs:
         java.append("-Dtlc2.tool.queue.IStateQueue=StateDeque")
     cmd = java + ["-cp", JAR, "tlc2.TLC", "-metadir", metadir, "-noGenerateSpecTE",
